@@ -1,6 +1,58 @@
-(* C13 — placeholder while the tie is being built *)
-From ApolloVerif Require Import Base.Chars.
-Lemma C13_placeholder : forall n : N, n = n.
-Proof. reflexivity. Qed.
-Check C13_placeholder : forall n : N, n = n.
-Print Assumptions C13_placeholder.
+(* C13 — Building from several sources is compositional; extension placement does not matter.
+   Property theorems only.  Model: Schema/Build.v (SchemaBuilder of schema/from_ast.rs). *)
+From ApolloVerif Require Import Base.Chars Ast.Ast Schema.Model Schema.Build Schema.BuildProofs.
+From Coq Require Import Permutation.
+
+(* the builder is a fold over definitions: adding the documents d1 ++ d2 one after another is adding d1,
+   then d2 — same state, hence same schema and same error list *)
+Theorem C13_schema_fold : forall cfg st d1 d2,
+  sb_add_docs cfg st (d1 ++ d2) = sb_add_docs cfg (sb_add_docs cfg st d1) d2.
+Proof. exact sb_add_docs_app. Qed.
+Check C13_schema_fold : forall cfg st d1 d2,
+  sb_add_docs cfg st (d1 ++ d2) = sb_add_docs cfg (sb_add_docs cfg st d1) d2.
+Print Assumptions C13_schema_fold.
+
+(* several documents give exactly the result (schema and error list) of the one document that is the
+   concatenation of their definition lists *)
+Theorem C13_schema_concat : forall cfg b0 docs,
+  sb_build_docs cfg b0 docs = sb_build cfg b0 (concat docs).
+Proof. exact sb_build_docs_concat. Qed.
+Check C13_schema_concat : forall cfg b0 docs,
+  sb_build_docs cfg b0 docs = sb_build cfg b0 (concat docs).
+Print Assumptions C13_schema_concat.
+
+(* Full statement (C13_extension_commutes):
+     forall cfg b0 pre e d mid post, sb_extends e d = true -> mid does not touch the target of e ->
+       sb_build cfg b0 (pre ++ e :: d :: mid ++ post)  and  sb_build cfg b0 (pre ++ d :: mid ++ e :: post)
+       are both a panic, or have schemas equal up to a renaming of extension ids (sch_equiv) and error
+       lists that are permutations of each other.
+   Proved: the case mid = [] (the extension directly before vs directly after the definition of its
+   target — a type of any of the six kinds, or the schema definition; any prefix, any suffix, both builder
+   configurations, including kind-mismatched extensions, colliding definitions and built-in types): there
+   the two schemas are EQUAL (same extension ids) and the error lists are permutations.
+   Missing: moving the extension across the definitions `mid` in between (needs the renaming of ids). *)
+Theorem C13_extension_commutes_partial : forall cfg b0 pre e d post,
+  sb_extends e d = true ->
+  sb_result_perm (sb_build cfg b0 (pre ++ e :: d :: post)) (sb_build cfg b0 (pre ++ d :: e :: post)).
+Proof. exact sb_commute_adjacent. Qed.
+Check C13_extension_commutes_partial : forall cfg b0 pre e d post,
+  sb_extends e d = true ->
+  sb_result_perm (sb_build cfg b0 (pre ++ e :: d :: post)) (sb_build cfg b0 (pre ++ d :: e :: post)).
+Print Assumptions C13_extension_commutes_partial.
+
+(* non-vacuity: `extend union X @d` before / after `type X { f: Int }` (the former D11): in both
+   orders one TypeExtensionKindMismatch and the same schema *)
+Definition c13_X : str := [88]. Definition c13_f : str := [102]. Definition c13_d : str := [100].
+Definition c13_Int : str := [73; 110; 116].
+Definition c13_b0 : schema :=
+  {| sch_def := sb_empty_schema_def; sch_dirdefs := []; sch_types := [EScalar None c13_Int [] true] |}.
+Definition c13_e : definition := XUnion c13_X [{| d_name := c13_d; d_args := [] |}] [].
+Definition c13_def : definition :=
+  DObject None c13_X [] [] [{| fd_desc := None; fd_name := c13_f; fd_args := []; fd_ty := TNamed c13_Int; fd_dirs := [] |}].
+Definition c13_cfg : sb_cfg := {| sbc_adopt := false; sbc_ignore_builtin := false |}.
+
+Example C13_nonvacuous :
+  sb_extends c13_e c13_def = true /\
+  (exists s, sb_build c13_cfg c13_b0 [c13_e; c13_def] = SbBuilt s [SbeTypeExtensionKindMismatch c13_X SbUnion SbObject]
+          /\ sb_build c13_cfg c13_b0 [c13_def; c13_e] = SbBuilt s [SbeTypeExtensionKindMismatch c13_X SbUnion SbObject]).
+Proof. split; [reflexivity|]. eexists. split; vm_compute; reflexivity. Qed.
